@@ -64,7 +64,10 @@ def ref_encoding_check(ex, xbits, vec, limit=spec.COEFF_LIMIT):
             if rounds > 64:
                 raise Unsupported('more than 64 unary-length tuples on one path')
             ex.nq += 1
-            if ex.solver.check() != z3.sat:
+            rr = ex.solver.check()
+            if rr == z3.unknown:
+                raise Unsupported('solver unknown in the reference-encoding check')
+            if rr != z3.sat:
                 break
             m = ex.solver.model()
             hs = {i: m.eval(h, model_completion=True).as_long() for (i, _), h in zip(sym, highs)}
